@@ -21,13 +21,13 @@ class Compiled:
         self.pt_error = False
 
 
-def compile_recipe(recipe, version, mode="app", scratch_slots=None, frame_pointers=None, assemble_constants=False, optimize_obj=None):
+def compile_recipe(recipe, version, mode="app", scratch_slots=None, frame_pointers=None, assemble_constants=False, optimize_obj=None, first_version=None):
     """Compile with the real compiler.  Never raises: the outcome (TEAL / PyTeal error / foreign exception) is data."""
     from . import build
     reset_globals()
     c = Compiled()
     try:
-        c.teal = build.compile_recipe(recipe, version, mode, scratch_slots, frame_pointers, assemble_constants, optimize_obj)
+        c.teal = build.compile_recipe(recipe, version, mode, scratch_slots, frame_pointers, assemble_constants, optimize_obj, first_version)
     except PT_ERRORS as e:
         c.err, c.errtype, c.pt_error = str(e), type(e).__name__, True
     except RecursionError as e:
